@@ -84,7 +84,7 @@ def run_cases(ctx, n_libs: int, per_lib: int, focus: str):
                 return a
 
         gen = TypedGen(rng, lib)
-        reqs, keep = [], []
+        reqs, keep, spec_reqs = [], [], []
         for _ in range(per_lib):
             op = rng.choice(["Select", "Select", "Where", "SelectMany"])
             try:
@@ -156,6 +156,7 @@ def run_cases(ctx, n_libs: int, per_lib: int, focus: str):
                 ctx.skip("unsupported")
                 continue
             reqs.append(("streamOp", [model, op, '(cls "Evt" ())', lam_enc]))
+            spec_reqs.append(("streamOpTy", [model, op, '(cls "Evt" ())', lam_enc]))
             if got[0] == "ok":
                 s = got[1]
                 node = s.query_ast.args[0]
@@ -172,4 +173,17 @@ def run_cases(ctx, n_libs: int, per_lib: int, focus: str):
         for (case, want), (st, payload) in zip(keep, res):
             if (st, payload) != want:
                 ctx.disagree("streamOp(typed)", {k: v for k, v in case.items() if k != "class_model"}, want[1][:500], (st, payload[:500]))
+        # ---- the declared-type checker `tyOf` (the specification of C08, Model/TypeSpec.lean) against the implementation:
+        # whenever the implementation accepts the lambda, the item type of the derived stream is the one the
+        # specification computes from the declarations and the lambda as written (streamOp_type_is_declared is this
+        # statement about the follower model; here it is observed on the code itself)
+        sres = ctx.driver.batch(spec_reqs)
+        for (case, want), (st, payload) in zip(keep, sres):
+            if want[0] != "ok":
+                ctx.dist["spec:implementation-refused"] += 1
+                continue
+            impl_ty = render(sparse(want[1])[1])
+            ctx.dist["spec:item-type-compared"] += 1
+            if (st, payload) != ("ok", impl_ty):
+                ctx.disagree("streamOpTy(spec)", {k: v for k, v in case.items() if k != "class_model"}, impl_ty[:300], (st, payload[:300]))
     reset_registries()
